@@ -520,9 +520,7 @@ def _run(case, ctx, env, classes, info):
         if op == "unique":
             if view.uniq is not None and (view is m.R or view.fetched or view.uniq is not m.R.uniq):
                 continue  # second unique() on an object that is already unique: not generated
-            if view is not m.R and view.fetched and not pinned:
-                ctx.exclude("ScalarResult/MappingResult.unique() after the view fetched rows (known finding: memoized getters ignore it)")
-                continue
+            # (late unique() on a filter view was repaired in /repo by fix: b7206f9 - generated again)
             if view is not m.R and view.fetched:
                 hazard["late_unique"] = True
             r2 = cur.unique(_strategy_fn(opd[1]))
@@ -562,9 +560,7 @@ def _run(case, ctx, env, classes, info):
             info["feature"] = True
             continue
         if op == "close":
-            if merged_live and not pinned:
-                ctx.exclude("MergedResult.close() (known finding: does not close)")
-                raise _Stop()
+            # (MergedResult.close() was repaired in /repo by fix: 18bb615 - generated again)
             cur.close()
             m.state = CLOSED
             explicit_closed = True
@@ -617,9 +613,6 @@ def _run(case, ctx, env, classes, info):
                     classes.add("terminal-ambiguous")
                 if res[0] == "ret" and res[1] is not None:
                     info["methods"].add(op)
-                if merged_live and not pinned:
-                    ctx.exclude("MergedResult after a terminal method (known finding: does not close)")
-                    raise _Stop()
                 m.state = TERMINATED
             continue
 
